@@ -302,6 +302,10 @@ def _name_validation(prog, cg, eff, chk, T3):
     if len(sigs) >= 2:
         base = sigs[0][1]
         for f, sg in sigs:
+            if not sg[0] and not sg[1]:
+                chk.unknown(T3, _short(f.qualname), 'what this name validator tests could not be read '
+                                                    '(no empty-test / character literal recognised)')
+                continue
             if sg == base and sg[0] and ';' in sg[1]:
                 chk.ok(T3, 'validator %s rejects the empty name and %s' % (_short(f.qualname), list(sg[1])),
                        locstr(f.node))
